@@ -142,6 +142,9 @@ def post_state(eng, contract, src, outcome):
                 post_env["_final_" + p] = env.get(p, v)
                 post_env[p] = v
             post_env["result"] = eng.math_view(outcome[1])
+            for gname in contract.ghost_results:
+                if gname in env:
+                    post_env[gname] = env[gname]
             eng.frames[0].env = post_env
             for i, (exc, when) in enumerate(contract.raises):
                 if when is None:
